@@ -590,8 +590,8 @@ func c15r5field(c *RC, openFn *Func, openCall *ast.CallExpr, offSel *ast.Selecto
 			return false
 		}
 		if ifs, ok := n.(*ast.IfStmt); ok {
-			if be, ok := ast.Unparen(ifs.Cond).(*ast.BinaryExpr); ok && be.Op == token.NEQ && expr(be.Y) == "nil" {
-				firstTest = expr(be.X)
+			if tx, nonNil, ok := nilTest(ifs.Cond); ok && nonNil {
+				firstTest = tx
 			}
 			return false
 		}
@@ -676,9 +676,12 @@ func c15r6(c *RC) {
 		fl.Walk(fl.Entry(), "", nil, Visitor{NoFacts: true,
 			Enter: func(from, to *cfg2Block, x string, s *Step) (string, bool) {
 				cond := fl.edgeCond(from)
-				if be, ok := ast.Unparen(cond2(cond)).(*ast.BinaryExpr); ok && expr(be.X) == target && expr(be.Y) == "nil" {
-					if be.Op == token.NEQ && from.Succs[1] == to || be.Op == token.EQL && from.Succs[0] == to {
-						return "checked", false
+				if cond != nil && len(from.Succs) == 2 {
+					if tx, nn, ok := nilTest(cond2(cond)); ok && tx == target {
+						// the edge on which the slot is known to be nil
+						if (nn && from.Succs[1] == to) || (!nn && from.Succs[0] == to) {
+							return "checked", false
+						}
 					}
 				}
 				return x, false
